@@ -6,8 +6,14 @@ package quic
 // uQUIC Initial framing code. Add-only: nothing here changes the behaviour of the package.
 
 import (
+	"context"
 	"errors"
 	"io"
+	"net"
+	"strings"
+	"time"
+
+	tls "github.com/refraction-networking/utls"
 
 	"github.com/refraction-networking/uquic/internal/protocol"
 )
@@ -127,5 +133,45 @@ func VerifUFramesConsts() [][2]any {
 		{"uframes_extTypeSNI", int64(extTypeSNI)},
 		{"uframes_extTypeECH", int64(extTypeECH)},
 		{"uframes_InvalidByteCount", int64(protocol.InvalidByteCount)},
+	}
+}
+
+// VerifUFramesDatagramIdx / VerifUFramesPlannedLeft: packer fields the uwire unit logs with
+// every packet (the datagram index MarshalInitialPacketPayload will use, the planned flight
+// payloads not yet sent).
+func (r *VerifRetx) VerifUFramesDatagramIdx() int { return r.p.initialDatagramIdx }
+func (r *VerifRetx) VerifUFramesPlannedLeft() int { return len(r.p.flightPayloads) }
+
+// VerifUFramesDialRejects dials the spec through the real UTransport.Dial (loopback socket,
+// already-cancelled context, so a dial that gets past validation ends at once) and reports
+// whether the dial refused the spec as invalid before creating a connection.
+func VerifUFramesDialRejects(spec *QUICSpec) (rejected bool, msg string) {
+	pc, err := net.ListenUDP("udp", &net.UDPAddr{IP: net.IPv4(127, 0, 0, 1)})
+	if err != nil {
+		return false, "verif: no loopback socket: " + err.Error()
+	}
+	tr := &UTransport{Transport: &Transport{Conn: pc}, QUICSpec: spec}
+	ctx, cancel := context.WithCancel(context.Background())
+	cancel()
+	done := make(chan error, 1)
+	go func() {
+		defer func() {
+			if p := recover(); p != nil { // only past the validation (this spec has no ClientHelloSpec)
+				done <- errors.New("dial got past validation")
+			}
+		}()
+		_, err := tr.Dial(ctx, &net.UDPAddr{IP: net.IPv4(127, 0, 0, 1), Port: 4433}, &tls.Config{InsecureSkipVerify: true, ServerName: "verif.invalid", NextProtos: []string{"h3"}}, &Config{})
+		done <- err
+	}()
+	select {
+	case err = <-done:
+		go func() { _ = tr.Close(); _ = pc.Close() }()
+		if err == nil {
+			return false, "dial succeeded"
+		}
+		return strings.Contains(err.Error(), "invalid QUICSpec"), err.Error()
+	case <-time.After(500 * time.Millisecond):
+		// the dial got past validation and is running a connection: it was not refused
+		return false, "dial went on to create a connection"
 	}
 }
